@@ -2138,3 +2138,107 @@ class Diag(Contract):
                                             FA(0, zi(cores.len_term()), lambda j: z3.And(lst_get(cores, j).buf == lst_get(c0, j).buf, zi(lst_get(cores, j).ndim) == zi(lst_get(c0, j).ndim),
                                                                                          *[a == b for a, b in zip(lst_get(cores, j).shape, lst_get(c0, j).shape)])))
         return {self.KI: outer, self.KK: inner, self.KL: inner}.get(key)
+
+
+@register
+class Qtt2tt(Contract):
+    """qtt2tt(merge_numbers): consecutive groups of cores are merged.  With C(i) = merge_numbers[0] + ... + merge_numbers[i-1]:
+    the result has len(merge_numbers) cores, mode i has the product of the dimensions of the modes C(i) .. C(i+1)-1 and the
+    ranks are those of self at the group boundaries; everything is fresh, self is not written."""
+    name, func = 'TT.qtt2tt', 'qtt2tt'
+    props = ('C02', 'C06')
+    KO, KI = 'i in range(len(merge_numbers))', 'j in range(k + 1, k + merge_numbers[i])'
+    loop_ordinals = {0: KO, 1: KI}
+    list_kinds = {'tt_cores': 'arr'}
+    uses_heap = True        # (quantified model facts in the path condition: the vacuity guards are of the weaker kind, see A-vacuity)
+
+    def _C(self, me):
+        # cumulative sums of merge_numbers: an uninterpreted function with its recursive definition (assumed as a definition)
+        key = '_cumsum'
+        if not hasattr(self, key):
+            setattr(self, key, fresh_fun('cumsum', z3.IntSort(), z3.IntSort()))
+        return getattr(self, key)
+
+    def setup(self, ex, state, inst):
+        from vt.e1.calls import prod_fun
+        m0 = ex.ctx.mark0
+        me = mk_tt(state, 'self', m0)
+        n = fresh('ngroups')
+        mn = mk_int_list(state, 'merge_numbers', n)
+        C = self._C(me)
+        state.assume(z3.And(C(0) == 0, FA(0, n, lambda i: C(i + 1) == C(i) + lst_get(mn, i))), model=True)
+        # definition of the slice products of the dimension lists (quantified: the merged dimensions are products over groups
+        # whose bounds are symbolic), and lemma L-prod-pos for lists of positive dimensions
+        a, b = z3.Int('pa'), z3.Int('pb')
+        # lemma L-cumsum-mono (induction over the list, assumed): with positive merge numbers C grows by at least one per group
+        state.assume(z3.Implies(FA(0, n, lambda i: lst_get(mn, i) >= 1),
+                                z3.ForAll([a, b], z3.Implies(z3.And(0 <= a, a <= b, b <= n), C(a) + (b - a) <= C(b)), patterns=[z3.MultiPattern(C(a), C(b))])), model=True)
+        for l in (me.row_dims, me.col_dims):
+            P = prod_fun(l)
+            f = l.fn
+            state.assume(z3.ForAll([a], P(a, a) == 1), model=True)
+            state.assume(z3.ForAll([a, b], z3.Implies(z3.And(0 <= a, a <= b, b < zi(me.order)), P(a, b + 1) == P(a, b) * zi(f(b))), patterns=[P(a, b + 1)]), model=True)
+            state.assume(z3.ForAll([a, b], z3.Implies(z3.And(0 <= a, a <= b, b <= zi(me.order)), P(a, b) >= 1), patterns=[P(a, b)]), model=True)
+        return {'self': me, 'merge_numbers': mn}
+
+    def domain_extra(self, S):
+        mn = S.a['merge_numbers']
+        yield 'groups-nonempty', z3.And(zi(mn.len_term()) >= 1, FA(0, zi(mn.len_term()), lambda i: lst_get(mn, i) >= 1))
+
+    def requires(self, S):
+        me, mn = S.a['self'], S.a['merge_numbers']
+        # derived from the code: cores[k] with k = sum of the previous merge numbers is read for every group
+        yield 'groups-cover-the-cores', self._C(me)(zi(mn.len_term())) == zi(me.order)
+        yield 'boundary-ranks-1', boundary_one(me)
+
+    def ensures(self, S, res):
+        from vt.e1.calls import prod_fun
+        me, mn = S.o['self'], S.o['merge_numbers']
+        n = zi(mn.len_term())
+        C = self._C(me)
+        yield 'returns-TT', isinstance(res, STT)
+        if not isinstance(res, STT):
+            return
+        Pr, Pc = prod_fun(me.row_dims), prod_fun(me.col_dims)
+        yield 'order', zi(res.order) == n
+        yield 'ranks-at-group-boundaries', FA(0, n + 1, lambda i: lst_get(res.ranks, i) == lst_get(me.ranks, C(i)))
+        yield 'merged-dimensions', FA(0, n, lambda i: z3.And(lst_get(res.row_dims, i) == Pr(C(i), C(i + 1)), lst_get(res.col_dims, i) == Pc(C(i), C(i + 1))))
+        yield 'result-fresh', z3.And(meta_fresh(res, S.mark0), cores_fresh(res, S.mark0))
+
+    def canary(self, S, res):
+        return zi(res.order) == zi(S.o['merge_numbers'].len_term()) + 1 if isinstance(res, STT) else None
+
+    def invariant(self, key, inst):
+        me_ = self
+
+        def common(V):
+            from vt.e1.calls import prod_fun
+            me, q = V.old('self'), V['qtt_tensor']
+            d = zi(me.order)
+            yield 'qtt_tensor', z3.And(zi(q.order) == d, valid(q), same_ints(q.row_dims, me.row_dims, d), same_ints(q.col_dims, me.col_dims, d),
+                                       same_ints(q.ranks, me.ranks, d + 1), meta_fresh(q, V.mark0), cores_fresh(q, V.mark0))
+
+        def group(V, c, a, b):
+            """c is the merge of the cores a .. b-1"""
+            from vt.e1.calls import prod_fun
+            me = V.old('self')
+            Pr, Pc = prod_fun(me.row_dims), prod_fun(me.col_dims)
+            return z3.And(zi(c.ndim) == 4, c.shape[0] == lst_get(me.ranks, a), c.shape[1] == Pr(a, b), c.shape[2] == Pc(a, b), c.shape[3] == lst_get(me.ranks, b),
+                          c.buf >= V.mark0)
+
+        def outer(V, i, k_):
+            me, mn, tc = V.old('self'), V.old('merge_numbers'), V['tt_cores']
+            C = me_._C(me)
+            yield from common(V)
+            yield 'k', z3.And(zi(V['k']) == C(zi(i)), C(zi(i)) >= 0, z3.Implies(zi(i) < zi(mn.len_term()), C(zi(i) + 1) <= zi(me.order)))
+            yield 'tt_cores', z3.And(zi(tc.len_term()) == zi(i), tc.ref >= V.mark0, FA(0, zi(i), lambda q: group(V, lst_get(tc, q), C(q), C(q + 1))))
+
+        def inner(V, j, k_):
+            me, mn, tc = V.old('self'), V.old('merge_numbers'), V['tt_cores']
+            C = me_._C(me)
+            i = zi(V['i'])
+            yield from common(V)
+            yield 'group', z3.And(i >= 0, i < zi(mn.len_term()), zi(V['k']) == C(i), C(i) >= 0, C(i + 1) <= zi(me.order), zi(j) > C(i), zi(j) <= C(i + 1))
+            yield 'core', group(V, V['core'], zi(V['k']), zi(j))
+            yield 'tt_cores', z3.And(zi(tc.len_term()) == i, tc.ref >= V.mark0, FA(0, i, lambda q: group(V, lst_get(tc, q), C(q), C(q + 1))))
+        return {self.KO: outer, self.KI: inner}.get(key)
